@@ -535,7 +535,10 @@ func c04LoadYear(p *Prog, r *Report) {
 		r.Ob("copy:minmax-repair", p.Pos(ls[1].Stmt.Pos()), len(swaps) == 2 && swaps["TMIN"] == swaps["TMAX"], fmt.Sprintf("the min/max repair exchanges both values under the same condition: TMIN under [%s], TMAX under [%s]", clip(swaps["TMIN"], 100), clip(swaps["TMAX"], 100)))
 	}
 	// per-year and per-file scalars
-	for _, sc := range []struct{ g, s string; perYear bool }{{"WINDHI", "WINDHI", false}, {"CO2KONZ", "CO2KONZ", true}, {"ALTI", "ALTITUDE", false}} {
+	for _, sc := range []struct {
+		g, s    string
+		perYear bool
+	}{{"WINDHI", "WINDHI", false}, {"CO2KONZ", "CO2KONZ", true}, {"ALTI", "ALTITUDE", false}} {
 		found := false
 		for _, e := range x.Events {
 			if e.Kind != "assign" || e.Root != "GlobalVarsMain."+sc.g || len(e.Idx) != 0 {
